@@ -826,6 +826,26 @@ func ruleP06PrintWidth(p *Prog, r *Report) {
 					match = true
 				}
 			}
+			// the slot just written, read back: prefixes[i] != nil after prefixes[i] = prefix
+			if u, isU := strip(x).(*ssa.UnOp); isU && u.Op == token.MUL && !match {
+				if ia, isIA := u.X.(*ssa.IndexAddr); isIA {
+					eachVInstr(f, func(in2 ssa.Instruction) {
+						st2, isSt := in2.(*ssa.Store)
+						if !isSt {
+							return
+						}
+						ia2, isIA2 := st2.Addr.(*ssa.IndexAddr)
+						if !isIA2 || !(ia2 == ia || (sameValue(ia2.X, ia.X) && ia2.Index == ia.Index)) {
+							return
+						}
+						for _, a := range appended {
+							if strip(st2.Val) == a {
+								match = true
+							}
+						}
+					})
+				}
+			}
 			if match {
 				continue
 			}
